@@ -34,8 +34,9 @@ MODES = {
     # an Acquire load that only a debug_assert! performs must not be what orders anything
     "tsanrel": ("nightly", "dev", GUARD + " -Zsanitizer=thread", ["-Zbuild-std", "--target", TARGET]),
     "mirirel": ("nightly", "dev", GUARD, []),
+    "asanrel": ("nightly", "dev", GUARD + " -Zsanitizer=address -Cforce-frame-pointers=yes", ["--target", TARGET]),
 }
-NODEBUG = ("tsanrel", "mirirel")
+NODEBUG = ("tsanrel", "mirirel", "asanrel")
 
 
 def fam(mode):
@@ -45,7 +46,9 @@ def fam(mode):
 
 def mode_env(mode, env):
     if mode in NODEBUG:
+        # what a release build of a dependent crate compiles: no debug assertions, wrapping arithmetic
         env["CARGO_PROFILE_DEV_DEBUG_ASSERTIONS"] = "false"
+        env["CARGO_PROFILE_DEV_OVERFLOW_CHECKS"] = "false"
     return env
 
 MIRI_BASE = "-Zmiri-permissive-provenance -Zmiri-address-reuse-cross-thread-rate=0 -Zmiri-disable-isolation"
@@ -183,7 +186,7 @@ class Job:
                 leak = []
             cmd = ["valgrind", "--error-exitcode=99"] + leak + ["--num-callers=30", "-q"] + self.valgrind_args + [bin_path("rel", self.bin)] + self.args
             return cmd, env, HARNESS
-        if self.mode == "asan":
+        if fam(self.mode) == "asan":
             env.setdefault("ASAN_OPTIONS", "detect_leaks=1:halt_on_error=1:abort_on_error=0:exitcode=98:detect_stack_use_after_return=0")
             env.setdefault("LSAN_OPTIONS", "exitcode=97")
         if fam(self.mode) == "tsan":
